@@ -252,6 +252,11 @@ def _run_property(prop_name, tier, seed, replay, verbose):
         with open(path, 'w') as f:
             json.dump(dict(property=pid, tier=tier, seed=seed, cases=bad_cases,
                            rejected=detail[:50], total_rejected=len(new)), f, indent=1)
+        hist = {}
+        for rid, clauses, fp in new:
+            for c in clauses:
+                hist[c] = hist.get(c, 0) + 1
+        log('clause histogram over %d rejected records: %s' % (len(new), sorted(hist.items(), key=lambda x: -x[1])[:30]))
         for rid, clauses, fp in new[:10]:
             log('rejected record %d clauses=%s fingerprint=%s' % (rid, clauses, fp))
         print('VIOLATION property=%s replay=%s' % (pid, path), flush=True)
